@@ -110,14 +110,21 @@ def make_job_fn(check):
             # machine's speed: a batch explores the same runs wherever it executes.  The wall budget below
             # is only a safety net.
             n_variants = check.variants_for(wl, tier)
+        plan_ = []
         for k in range(n_variants):
-            if time.time() - t0 > budget and k >= job.get("min_variants", 8):
-                stats["skipped"]["variants_cut_by_wall_budget"] += n_variants - k
-                break
             rs = run_seed(vseed, prop + f"/run/{j}", k)
             r = random.Random(rs)
             cfg = check.draw_config(r, wl, tier)
-            dec = Decisions(seed=r.getrandbits(64))
+            plan_.append((k, rs, cfg, r.getrandbits(64)))
+        if getattr(check, "HISTORY_FAULTS_FIRST", False):
+            # runs with an earlier analysis in the same process go first, while the job process has not yet analysed
+            # this workload itself: the child forked for them must not inherit what the library remembers about it
+            plan_.sort(key=lambda t: (0 if t[2].get("decoy") else 1, t[0]))
+        for pos, (k, rs, cfg, dseed) in enumerate(plan_):
+            if time.time() - t0 > budget and pos >= job.get("min_variants", 8):
+                stats["skipped"]["variants_cut_by_wall_budget"] += n_variants - pos
+                break
+            dec = Decisions(seed=dseed)
             if getattr(check, "ISOLATE_RUNS", False):
                 out, viols, dec_log = batch._isolated(_evaluate_isolated, (check, wl, cfg, dec, ctx), job.get("per_run_limit", 600.0), arm_watchdog=False)
                 dec.log = dec_log
